@@ -298,7 +298,7 @@ func runC02(c *Ctx) {
 		bad := 0
 		n := 0
 		for _, f := range c.PkgFuncs("pkg/proxy") {
-			forEachInstr(f, true, func(_ *ssa.Function, in ssa.Instruction) {
+			forEachInstr(f, false, func(_ *ssa.Function, in ssa.Instruction) {
 				if call, ok := in.(*ssa.Call); ok && isAtomicCall(call.Common(), "Store") {
 					if _, fld, _, ok := fieldAddrInfo(call.Common().Args[0]); ok && fld == "reuseBuffer" {
 						n++
